@@ -402,7 +402,8 @@ OP_ATTR = {"set_child": "child", "set_lazy": "lazy", "read_lazy": "lazy",
            "set_children": "children", "children_same": "children", "list": "children",
            "set_table": "table", "dict": "table", "set_group": "group", "set": "group",
            "set_grid": "grid", "grid_inner": "grid", "grid_outer": "grid",
-           "set_extra": "extra", "add_trait": "extra", "read_extra": "extra", "read": None}
+           "set_extra": "extra", "add_trait": "extra", "read_extra": "extra", "read": None,
+           "del_attr": None}
 
 
 def inflight_keys(world, op):
@@ -466,6 +467,7 @@ class World:
         self.pending_lazy = None
         self.lazy_enabled = True
         self.allow_k3 = False
+        self.del_enabled = False     # 'del node.trait' ops (C08 turns them on)
         if sut_on:
             CUR["world"] = self
         classes = classes or []
@@ -514,6 +516,7 @@ class World:
         w.default_cls = self.default_cls
         w.lazy_enabled = self.lazy_enabled
         w.allow_k3 = self.allow_k3
+        w.del_enabled = self.del_enabled
         w.pinned_uids = set(getattr(self, "pinned_uids", ()))
         return w
 
@@ -794,6 +797,41 @@ class World:
             if old is UNSET:
                 old = ("default",)
         return [Change("trait", mobj=m, obj=n, name=name, changed=changed, old=old, new=new)]
+
+    def op_del_attr(self, op, step):
+        """``del node.<link or container trait>``: back to the default.  Nothing
+        happens when nothing is stored.  With listeners on the trait the default
+        is materialised at once (to report it as the new value), otherwise the
+        attribute stays unset until the next read - the interpreter looks at the
+        object's dictionary to see which (as for lazy defaults)."""
+        n, m = self._target(op)
+        name = op["name"]
+        if name not in m.traits() or (name in CONTAINERS and not m.full) or not self.del_enabled:
+            return []
+        oldm = m.get(name)
+        if oldm is UNSET:
+            return []
+        empty = {"children": MList, "table": MDict, "group": MSet, "grid": MList}
+        if not self.sut_on:
+            setattr(m, name, UNSET)
+            return [Change("trait", mobj=m, name=name, changed=False)]
+        old = n.__dict__.get(name, UNSET)
+        self._do(step, "del N%d.%s" % (m.uid, name), delattr, n, name)
+        new = n.__dict__.get(name, UNSET)
+        if new is UNSET:
+            setattr(m, name, UNSET)
+            newm = None if name not in empty else empty[name]()
+        else:
+            if (name in empty and len(new) != 0) or (name not in empty and new is not None):
+                raise Violation("graph.structure", "del N%d.%s left %r" % (m.uid, name, new), step)
+            newm = None if name not in empty else empty[name]()
+            setattr(m, name, newm)
+        if name in empty:
+            changed = self._cont_differs(oldm, newm)
+        else:
+            changed = oldm is not None
+        return [Change("trait", mobj=m, obj=n, name=name, changed=changed, old=old,
+                       new=None if new is UNSET else new)]
 
     @staticmethod
     def _cont_differs(a, b):
